@@ -99,17 +99,30 @@ Definition check_shared2 (c : list (nat * Z) * list (nat * Z)) : bool :=
 (* case kind 5: Extensions.NotifyComponentStatusChange.  script = [(w, 300) for every watcher extension w, in
    start order] ++ lifecycle script (kind 2); observed = every ComponentStatusChanged call in order,
    (watcher * 100 + source instance, status) *)
+Definition tagged (t : Z) (ls : list (nat * Z)) : list nat := map fst (filter (fun p => Z.eqb (snd p) t) ls).
+
 Definition split_watchers (ls : list (nat * Z)) : list nat * list (nat * Z) :=
-  (map fst (filter (fun p => Z.eqb (snd p) 300) ls), filter (fun p => negb (Z.eqb (snd p) 300)) ls).
+  (tagged 300 ls, filter (fun p => negb (Z.eqb (snd p) 300 || Z.eqb (snd p) 301 || Z.eqb (snd p) 302)) ls).
 
 Definition delivZ (ds : list (nat * (nat * status))) : list (nat * Z) :=
   map (fun d => (fst d * 100 + fst (snd d), Z_of_status (snd (snd d)))) ds.
+
+Fixpoint nodupb (l : list nat) : bool :=
+  match l with [] => true | x :: r => negb (existsb (Nat.eqb x) r) && nodupb r end.
+Definition inclb (a b : list nat) : bool := forallb (fun x => existsb (Nat.eqb x) b) a.
+
+(* (c, 301) = service::extensions as configured (duplicates included), (o, 302) = the order extensions.New computed,
+   (w, 300) = the watcher extensions in that order.  The order must be a duplicate-free enumeration of the configured
+   set (= Model.ext_ids cfg up to the unspecified order among map keys); the watchers are taken from it. *)
+Definition order_ok (cfg order ws : list nat) : bool :=
+  nodupb order && inclb order (ext_ids cfg) && inclb (ext_ids cfg) order && nodupb ws && inclb ws order.
 
 Definition check_watchers (c : list (nat * Z) * list (nat * Z)) : bool :=
   let '(ls, obs) := c in
   let '(ws, sc) := split_watchers ls in
   match map_opt lcop_of sc with
-  | Some os' => list_eqb pairNZ_eqb (delivZ (watcher_deliveries ws (lc_events os'))) obs
+  | Some os' => order_ok (tagged 301 ls) (tagged 302 ls) ws &&
+                list_eqb pairNZ_eqb (delivZ (watcher_deliveries ws (lc_events os'))) obs
   | None => false
   end.
 
